@@ -664,7 +664,9 @@ theorem rej_final {m W : Bytes} (hne : m ≠ []) (hno : ∀ p ≤ maxPadding, ¬
       rcases e2 with rfl | rfl <;> simp
   · simp only [stepEv, h1]
     refine ⟨ho, h3, ?_⟩
-    rcases h2 with rfl | rfl <;> simp [h1]
+    rcases h2 with rfl | rfl
+    · left; rfl
+    · right; rfl
 
 /-! ## the sending side -/
 
